@@ -196,7 +196,7 @@ Definition hdr_history (q : quirks) (files : list hfile) : list hres :=
 
 (* ------------------------------------------------------------------------------------------------ part 3 *)
 (* Correspondence.  Parsers, files, arguments and results are integers: indices into the run's job table and
-   128-bit digests.  `table` lists, per (parser, content digest, args), the digest obtained in a FRESH interpreter. *)
+   digests (sha256 strings interned one-to-one as small integers by the driver).  `table` lists, per (parser, content digest, args), the digest obtained in a FRESH interpreter. *)
 Definition job : Set := (Z * Z * Z)%type.
 Definition fresh_table : Set := list (job * Z).
 
@@ -248,6 +248,16 @@ Fixpoint verdicts (pred obsd : list zobs) (flags : list bool) : list Z :=
             end) :: verdicts pr or fr
   | _, _, _ => [1]                              (* different number of observations *)
   end.
+
+(* typed constructors for the emitted case terms (fast elaboration) *)
+Definition zop : Type := @op Z Z Z.
+Definition zC (i p f a : Z) : zop := Construct i p f a.
+Definition zP (i : Z) : zop := Parse i.
+Definition zM (i : Z) : zop := Mutate i.
+Definition zD (i : Z) : zop := Drop i.
+Definition zo (i r b a : Z) : zobs := (i, r, b, a).
+Definition zt (p c a d : Z) : job * Z := ((p, c, a), d).
+Definition zh (o : list zop) (b : list zobs) : list zop * list zobs := (o, b).
 
 (* one case = one interpreter: table, file system, operation list, observations *)
 Definition check_history (c : fresh_table * list (Z * Z) * list (@op Z Z Z) * list zobs) : Z :=
